@@ -262,6 +262,7 @@ class ApiWorld:
     def __init__(self, ctx, crystals):
         self.ph = {}
         self.orc = {}
+        self.base = {}  # label of a Phonopy object -> catalogue crystal
         S = [[2, 0, 0], [0, 2, 0], [0, 0, 2]]
         for c in crystals:
             orc = cm.MeshOracle(c, [S], a=1.7, seed=ctx.seed + 5, ctx=ctx)
@@ -270,10 +271,19 @@ class ApiWorld:
             ph.force_constants = orc.supercell_fc(S, ph.supercell)
             self.ph[c] = ph
             self.orc[c] = orc
+            self.base[c] = c
+        # a dynamically unstable crystal (imaginary modes away from Gamma): the same exact force constants with
+        # the opposite sign - still symmetric under the full space group, so the requirement is unchanged
+        for c in crystals[:1] if ctx.quick else crystals[:3]:
+            with contextlib.redirect_stdout(io.StringIO()):
+                ph = Phonopy(self.orc[c].unitcell(), supercell_matrix=S)
+            ph.force_constants = -self.orc[c].supercell_fc(S, ph.supercell)
+            self.ph[c + "~unstable"] = ph
+            self.base[c + "~unstable"] = c
 
-    def init_mesh(self, cfg, crystal, run=False):
+    def init_mesh(self, cfg, crystal, run=False, label=None):
         """Phonopy.init_mesh / run_mesh with the GridPoints construction recorded."""
-        ph = self.ph[crystal]
+        ph = self.ph[label or crystal]
         shift = cm.shift_float(cfg)
         mesh = cfg["_length"] if cfg["len"] else cfg["mesh"]
         with cm.Recorder() as rec:
@@ -476,6 +486,59 @@ def dos(ph, fmax):
     return np.array(ph.get_total_dos_dict()["total_dos"])
 
 
+def safe_fractions(freqs, fmax):
+    """cutoffs / window edges (fractions of fmax near 1/4, 1/2, 3/4) that no mode frequency touches: a mode
+    exactly on a strict threshold would be in or out by rounding noise (single-atom crystals have modes at
+    exactly fmax/2)."""
+    out = {}
+    f = np.abs(np.asarray(freqs)).ravel() / fmax
+    for target in (0.25, 0.5, 0.75):
+        x = target + 0.0113
+        while np.abs(f - x).min() < 1e-4:
+            x += 0.0071
+        out[target] = x
+    return out
+
+
+def thermal_variants(ph, fmax, unstable, fr):
+    """Weighted sums whose mode selection is not 'everything': cutoff inside the spectrum, band selections,
+    pretend_real, both evaluation paths (ThermalProperties.run(lang=...)); moment and DOS windows."""
+    from phonopy.phonon.thermal_properties import ThermalProperties
+
+    out = {}
+    nb = ph._mesh.frequencies.shape[1]
+    bands = [None, [[0, nb - 1]], [list(range(1, nb, 2))]]
+    cuts = [None] if unstable else [None, fr[0.25] * fmax, fr[0.5] * fmax]
+    for cut in cuts:
+        for bi, band in enumerate(bands):
+            for pretend in ((False, True) if unstable else (False,)):
+                for lang in ("C", "Py"):
+                    tp = ThermalProperties(ph._mesh, cutoff_frequency=cut, pretend_real=pretend, band_indices=band)
+                    tp.temperatures = [0.0, 40.0, 300.0, 900.0]
+                    tp.run(lang=lang)
+                    t, fe, s_, cv = tp.thermal_properties
+                    key = "thermal[cutoff=%s,bands=%d,pretend_real=%s,lang=%s]" % (
+                        "default" if cut is None else "%.4f*fmax" % (cut / fmax), bi, pretend, lang)
+                    out[key] = np.concatenate([fe, s_, cv, [tp.zero_point_energy]])
+                    out[key.replace("thermal[", "modecount[")] = np.array(
+                        [float(tp.number_of_integrated_modes), float(tp.number_of_modes)])
+    if not unstable:
+        for lo, hi in ((fr[0.25], fr[0.75]), (fr[0.5], None), (None, fr[0.5])):
+            vals = []
+            for order in (1, 2):
+                try:
+                    ph.run_moment(order=order, freq_min=None if lo is None else lo * fmax,
+                                  freq_max=None if hi is None else hi * fmax)
+                    vals.append(ph.get_moment())
+                except ZeroDivisionError:  # no mode in the window (PhononMoment divides by the mode count):
+                    vals.append(np.nan)    # must then be empty with and without mesh symmetry
+            out["moments[window=%s..%s]" % (lo and round(lo, 4), hi and round(hi, 4))] = np.array(vals, dtype=float)
+        ph.run_total_dos(sigma=0.04 * fmax, freq_min=0.25 * fmax, freq_max=0.6 * fmax, freq_pitch=fmax / 60,
+                         use_tetrahedron_method=False)
+        out["dos[window=0.25..0.6]"] = np.array(ph.get_total_dos_dict()["total_dos"])
+    return out
+
+
 def moments(ph):
     out = []
     for order in (1, 2, 3):
@@ -489,7 +552,9 @@ def api_events(ctx, world, apiw, events_start):
     quick = ctx.quick
     events = []
     margins = []
-    for c, ph in apiw.ph.items():
+    for label, ph in apiw.ph.items():
+        c = apiw.base[label]
+        unstable = label != c
         meshes = [(2, 2, 2), (3, 3, 2), (4, 4, 2), (2, 2, 1), (3, 3, 3), (1, 2, 2), (2, 3, 4)]
         shifts = HALF_SHIFTS + GENERIC[:2] + [ODD_HALF[1]]
         combos = [(m, s, g, t) for m in meshes for s in shifts for g in (True, False) for t in (True, False)]
@@ -510,12 +575,16 @@ def api_events(ctx, world, apiw, events_start):
             for sym in (True, False):
                 cfg = dict(base_cfg, sym=sym)
                 try:
-                    gp, passed = apiw.init_mesh(cfg, c, run=True)
+                    gp, passed = apiw.init_mesh(cfg, c, run=True, label=label)
                     md = ph.get_mesh_dict()
                     freqs = np.array(md["frequencies"])
                     if fmax is None:
                         fmax = float(np.abs(freqs).max()) or 1.0
-                    vals = dict(thermal=thermal(ph), moments=moments(ph), dos=dos(ph, fmax))
+                        fr = safe_fractions(freqs, fmax)
+                    vals = dict(thermal=thermal(ph))
+                    if not unstable:
+                        vals.update(moments=moments(ph), dos=dos(ph, fmax))
+                    vals.update(thermal_variants(ph, fmax, unstable, fr))
                     pair[sym] = dict(cfg=cfg, gp=gp, freqs=freqs, weights=np.array(md["weights"]), vals=vals)
                 except Exception as e:
                     ctx.violation(classify(cfg, None, world) + ":api:exception",
@@ -529,15 +598,19 @@ def api_events(ctx, world, apiw, events_start):
             if not on or not off:
                 continue
             cls = classify(on["cfg"], [int(x) for x in on["gp"]._is_shift], world, [int(x) for x in on["gp"].mesh_numbers])
-            for q in ("thermal", "moments", "dos"):
+            for q in sorted(on["vals"]):
                 a, b = on["vals"][q], off["vals"][q]
-                scale = max(np.abs(b).max(), 1e-30)
-                err = float(np.abs(a - b).max() / scale) if a.shape == b.shape else 1.0
+                if a.shape == b.shape and np.array_equal(np.isnan(a), np.isnan(b)):
+                    a, b = np.nan_to_num(a), np.nan_to_num(b)
+                    scale = max(np.abs(b).max(), 1e-30)
+                    err = float(np.abs(a - b).max() / scale)
+                else:
+                    err = 1.0
                 margins.append(err)
                 if not (err < 1e-9):
-                    ctx.violation("%s:api:%s-on-off" % (cls, q),
+                    ctx.violation("%s:api:%s-on-off" % (cls, q.split("[")[0] + ("-selected" if "[" in q else "")),
                                   "C09: %s with mesh symmetry on differs from the unreduced mesh sum (relative %.3g)" % (q, err),
-                                  dict(crystal=c, cfg=strip(on["cfg"]), quantity=q, relative_difference=err,
+                                  dict(crystal=label, cfg=strip(on["cfg"]), quantity=q, relative_difference=err,
                                        n_ir=int(len(on["weights"])), n_full=int(len(off["weights"])),
                                        on=on["vals"][q], off=off["vals"][q]))
             # frequencies are constant on the classes of the reduced run (the classes TLC judges)
